@@ -115,7 +115,7 @@ class Signal(object):
         fa = np.fft.fft(self.values, n=n_factor)
         points = int(n_factor / 2)
         self._fa_spectrum = fa[range(points)] * self.dt
-        self._fa_freqs = np.arange(points) / (2 * points * self.dt)
+        self._fa_freqs = np.arange(points) / (n_factor * self.dt)
         self._cached_fa = True
 
     def generate_fa_spectrum(self):
